@@ -28,8 +28,18 @@ func init() {
 }
 
 var concTexts = []string{"a + b * 2", "$t = a, $t + b", "a + b", "[regexp(s1, 'ab'), regexp(s2, '^(a)*$'), regexp(s2, 'ab')]", "(m).a + b",
-	"round(a) * 1000 + roundBank(b)", "round(a) + 1", "lower(s1)"}
-var concParseTexts = []string{"'\\u4F11\\u4F34'+'\\x41'", "'\\u0041\\x62\\u4e2d'", "1 +\n (2 *"}
+	"round(a) * 1000 + roundBank(b)", "round(a) + 1", "lower(s1)", "$c = ($c ?? 0) + 1, $c"}
+var concParseTexts = []string{"'\\u4F11\\u4F34'+'\\x41'", "'\\u0041\\x62\\u4e2d'", "1 +\n (2 *", "1e1_0 + 2.5e-3"}
+
+// concParseBytes: the same byte buffers are handed to every goroutine (a caller may parse one text from many goroutines);
+// parsing must not write to them.
+var concParseBytes = func() [][]byte {
+	var out [][]byte
+	for _, t := range concParseTexts {
+		out = append(out, []byte(t))
+	}
+	return out
+}()
 var concDatas = mustParse(`<< [a |-> <<"int", 1>>, b |-> <<"int", 2>>],
   [a |-> <<"dec", FALSE, <<1>>, 1>>, b |-> <<"f64", FALSE, <<5>>, -1>>],
   [a |-> <<"int64", FALSE, <<9,0,0,7,1,9,9,2,5,4,7,4,0,9,9,3>>>>, b |-> <<"int", -3>>],
@@ -308,7 +318,10 @@ func recordConc(args []string) int {
 						w = []any{"evaldeep", int64(3), int64(di + 1), int64(*deep)}
 					case 4: // parsing texts with escapes while others parse and evaluate
 						pi := (g + it) % len(concParseTexts)
-						obs, _ := ParseObserve(concParseTexts[pi])
+						obs, _ := ParseObserveBytes(concParseBytes[pi])
+						if string(concParseBytes[pi]) != concParseTexts[pi] {
+							obs = []any{"BROKEN", "parsing changed the caller's text"}
+						}
 						w = []any{"parse", int64(pi + 1)}
 						o = obs
 					case 3: // analysis of the shared tree + parsing and formatting errors of other texts
@@ -334,9 +347,12 @@ func recordConc(args []string) int {
 							di = 6 // exact ties for round / roundBank
 						case 7:
 							di = 3 + (g+it)%2
+						case 8:
+							di = -1 // a runner that is never given a data map
 						}
-						dm, err := data.BuildMap(concDatas[di], nil)
-						if err != nil {
+						if di < 0 {
+							o = concOutcome(formula.NewRunner(), trees[ti].Expression)
+						} else if dm, err := data.BuildMap(concDatas[di], nil); err != nil {
 							o = []any{"BROKEN", err.Error()}
 						} else {
 							r := formula.NewRunner()
